@@ -1,4 +1,5 @@
 import RocflModel.Lemmas.Invariant
+import RocflModel.Lemmas.RepoInvariant
 /-
   C01 — every repository state rocfl can produce is a valid OCFL repository.
 
@@ -40,5 +41,23 @@ theorem C01_dedup_keeps_chosen (inv : Inv) (keep : Digest → List CPath) (e : C
   simp only [Bool.not_eq_true', List.contains_eq_mem, decide_eq_false_iff_not, List.mem_filter, not_and]
   intro _
   simp [hk]
+
+/-- **every history**: in every repository reachable by any sequence of create / cp / mv / rm / reset /
+    commit / upgrade / purge operations — whatever their arguments and outcomes — every committed object
+    has exactly the versions 1 … head, and the logical state of each of its versions lists every path
+    once, holds no path that is both a file and a directory, and no empty path -/
+theorem C01_reachable_objects_wellformed (spec : SpecV) (ops : List (Op × Str)) (id : Str) (o : Obj)
+    (h : AL.get (run spec ops).main id = some o) :
+    (1 ≤ o.inv.head.number ∧ o.inv.versions.length = o.inv.head.number) ∧
+    ∀ v ∈ o.inv.versions, AL.NoDupKeys v.state ∧ NoConflict v.state ∧ [] ∉ AL.keys v.state := by
+  have hr := reachable_ok spec ops
+  have ho := main_get_ok hr h
+  exact ⟨ho.1, fun v hv => ⟨(ho.2 v hv).nodup, (ho.2 v hv).noConflict, (ho.2 v hv).noRoot⟩⟩
+
+/-- in particular no logical path of any version of any reachable object is also a directory there -/
+theorem C01_reachable_file_is_not_dir (spec : SpecV) (ops : List (Op × Str)) (id : Str) (o : Obj)
+    (h : AL.get (run spec ops).main id = some o) (v : Version) (hv : v ∈ o.inv.versions) (p : LPath)
+    (hf : v.isFile p = true) : v.isDir p = false :=
+  file_not_dir v ((main_get_ok (reachable_ok spec ops) h).2 v hv) p hf
 
 end Rocfl.Theorems.C01
